@@ -11,7 +11,7 @@ import itertools
 from collections import Counter
 
 COLS = ["id", "score", "pay"]
-SCORES = (1, 2, 3)
+SCORES = (-1, 0, 1)  # three levels (every tie structure) including zero and a negative score
 
 
 def rows_of(inputs):
@@ -83,7 +83,7 @@ def first_inputs(length, desc, negative):
 
 EIGHT_SINGLES = [
     tuple((s,) for s in seq)
-    for seq in ((1, 2, 3, 1, 2, 3, 1, 2), (2, 2, 2, 2, 2, 2, 2, 2), (3, 3, 2, 2, 1, 1, 3, 1))
+    for seq in ((-1, 0, 1, -1, 0, 1, -1, 0), (0, 0, 0, 0, 0, 0, 0, 0), (1, 1, 0, 0, -1, -1, 1, -1))
 ]
 
 
